@@ -1,7 +1,8 @@
 (* C13 — statements about code that is NO LONGER in /repo (kept as a record of what the repaired defects did; not part of
    the obligations of Properties/C13.v).
    F-CFG-ALIAS (fixed in d1e1da9): deep_update used the shallow copy.copy when a mapping replaced a scalar.
-   F-CFG-REUSE (fixed in 2d863d6): create() handed the context the builder's own LanguageConfig object. *)
+   F-CFG-REUSE (fixed in 2d863d6): create() handed the context the builder's own LanguageConfig object.
+   F-CFG-ALIASMAP (fixed): the deep copy kept sub-maps that were one object inside the source shared. *)
 From Verif Require Import Config ConfigAlias ConfigThmAlias.
 Require Import List Bool Lia.
 Import ListNotations.
@@ -38,3 +39,12 @@ Proof.
   vm_compute. discriminate.
 Qed.
 Print Assumptions c13_history_builder_reuse_refuted.
+
+(* with the plain deepcopy (rebuild = false) the copy kept the internal sharing of the source: the later source, which does not
+   mention e.b, changed e.b.k *)
+Theorem c13_history_aliased_submap_changes_unmentioned_key :
+  untouched [[101]; [98]; [107]] (dag_expand 8 [] am_src2) = true
+  /\ lookup [[101]; [98]; [107]] (fst (hmerge_dag_scenario true false am_base [am_src1])) = Some (Leaf false (AInt 1))
+  /\ lookup [[101]; [98]; [107]] (fst (hmerge_dag_scenario true false am_base [am_src1; am_src2])) = Some (Leaf false (AInt 2)).
+Proof. exact aliased_submap_changes_unmentioned_key. Qed.
+Print Assumptions c13_history_aliased_submap_changes_unmentioned_key.
